@@ -24,7 +24,10 @@ EXTENDS Naturals, Sequences, FiniteSets, TLC, Json
 CONSTANTS N,       \* nodes 1..N ; links only go from lower to higher numbers (acyclic)
           Names,   \* pin names, "" = unnamed
           Devs,    \* enabled as-built deviations
-          InitDags \* the DAGs explored (a set of [Nodes -> SUBSET Nodes]); AllDags = every forward-linked DAG
+          InitDags,\* the DAGs explored (a set of [Nodes -> SUBSET Nodes]); AllDags = every forward-linked DAG
+          MaxMiss, \* initially at most MaxMiss blocks are missing
+          ModeSet, \* the mode arguments (indexes of ModeNames) PinWithMode is called with
+          FaultSet \* the faults injected into calls
 
 Nodes == 1..N
 \* pin modes as passed to the API: 0..5 are the declared constants, 99 is an undeclared value
@@ -114,11 +117,11 @@ Apply(s, o, D) ==
 Op(op, c, c2, flag, name, mode, fault) ==
   [op |-> op, c |-> c, c2 |-> c2, flag |-> flag, name |-> name, mode |-> mode, fault |-> fault]
 AllOps ==
-       {Op("Pin", c, 0, f, nm, 0, ft) : c \in Nodes, f \in BOOLEAN, nm \in Names, ft \in {"none", "cancelled"}}
-  \cup {Op("Pin", c, 0, TRUE, nm, 0, "cancelFetch") : c \in Nodes, nm \in Names}
-  \cup {Op("PinMode", c, 0, FALSE, nm, m, ft) : c \in Nodes, nm \in Names, m \in ModeIdx, ft \in {"none", "cancelled"}}
-  \cup {Op("Unpin", c, 0, f, "", 0, ft) : c \in Nodes, f \in BOOLEAN, ft \in {"none", "cancelled"}}
-  \cup {Op("Update", c, c2, f, "", 0, ft) : c \in Nodes, c2 \in Nodes, f \in BOOLEAN, ft \in Faults}
+       {Op("Pin", c, 0, f, nm, 0, ft) : c \in Nodes, f \in BOOLEAN, nm \in Names, ft \in FaultSet \ {"cancelFetch"}}
+  \cup {Op("Pin", c, 0, TRUE, nm, 0, ft) : c \in Nodes, nm \in Names, ft \in FaultSet \cap {"cancelFetch"}}
+  \cup {Op("PinMode", c, 0, FALSE, nm, m, ft) : c \in Nodes, nm \in Names, m \in ModeSet, ft \in FaultSet \ {"cancelFetch"}}
+  \cup {Op("Unpin", c, 0, f, "", 0, ft) : c \in Nodes, f \in BOOLEAN, ft \in FaultSet \ {"cancelFetch"}}
+  \cup {Op("Update", c, c2, f, "", 0, ft) : c \in Nodes, c2 \in Nodes, f \in BOOLEAN, ft \in FaultSet}
 \* the calls whose outcome the documentation determines in state s
 IsCall(s, o) == o.op = "Update" =>
                   /\ ~(o.fault = "cancelled" /\ o.c = o.c2)     \* a no-op may or may not notice the cancellation
@@ -192,7 +195,7 @@ Obs(s, D) == ObsK(s, Ctx(s), D)
 DagOK(L) == \A n \in Nodes : L[n] \subseteq {m \in Nodes : m > n}
 AllDags  == {L \in [Nodes -> SUBSET Nodes] : DagOK(L)}
 Init == /\ links \in InitDags
-        /\ present \in SUBSET Nodes
+        /\ present \in {P \in SUBSET Nodes : Cardinality(Nodes \ P) <= MaxMiss}
         /\ rec = {} /\ dir = {}
 
 Do(o) == LET a == Apply(St, o, Devs)
